@@ -11,6 +11,11 @@ use std::path::{Path, PathBuf};
 use std::time::{Duration, Instant};
 
 pub const VERIF_ROOT: &str = "/verif";
+/// Where known_findings.json is read and evidence/replays are written: /verif, unless a scratch trial
+/// (tools/try_seed_iso.sh) redirects it so that trials of seeded changes never touch the registered evidence.
+pub fn root() -> String {
+    std::env::var("ZVERIF_ROOT").ok().filter(|s| !s.is_empty()).unwrap_or_else(|| VERIF_ROOT.to_string())
+}
 const SET_CAP: usize = 3_000_000;
 const MAX_VIOLATIONS_PER_WORKER: usize = 8;
 const MAX_CRASH_RESTARTS: usize = 24;
@@ -356,7 +361,7 @@ pub struct Known {
 }
 
 pub fn load_known() -> Vec<Known> {
-    let p = Path::new(VERIF_ROOT).join("known_findings.json");
+    let p = Path::new(&root()).join("known_findings.json");
     let Ok(s) = std::fs::read_to_string(&p) else { return vec![] };
     let v: Value = serde_json::from_str(&s).expect("known_findings.json must be valid JSON");
     let mut out = vec![];
@@ -395,7 +400,7 @@ pub fn variant() -> Option<String> {
 }
 
 fn run_dir(prop: &str, tier: Tier) -> PathBuf {
-    let base = std::env::var("ZVERIF_RUN_DIR").unwrap_or_else(|_| format!("{VERIF_ROOT}/target/run"));
+    let base = std::env::var("ZVERIF_RUN_DIR").unwrap_or_else(|_| format!("{}/target/run", root()));
     Path::new(&base).join(format!("{prop}-{}{}", tier.name(), variant().map_or(String::new(), |v| format!("-{v}"))))
 }
 
@@ -754,7 +759,7 @@ pub fn run_parent(info: &CheckInfo, tier: Tier, extra_cov: Option<Value>) -> i32
     for (what, n) in &known_hits {
         println!("KNOWN-FINDING: property={prop} {what} ({n} case(s) in this run)");
     }
-    let rdir = Path::new(VERIF_ROOT).join("replays").join(prop);
+    let rdir = Path::new(&root()).join("replays").join(prop);
     // replay files describe this run only
     if let Ok(rd) = std::fs::read_dir(&rdir) {
         for e in rd.flatten() {
@@ -828,7 +833,7 @@ pub fn run_parent(info: &CheckInfo, tier: Tier, extra_cov: Option<Value>) -> i32
         "wall_s": wall,
         "violations": new_violations.len(),
     });
-    let edir = Path::new(VERIF_ROOT).join("evidence");
+    let edir = Path::new(&root()).join("evidence");
     std::fs::create_dir_all(&edir).unwrap();
     let ev_name = match variant() {
         Some(v) => format!("{prop}.{v}.json"),
